@@ -185,6 +185,26 @@ def check(ctx, rep):
     rep.ob('bload.one-marker-only', 'bload_ drops one trailing 0x1A, and only if the last byte is one',
            len(cuts) == 1 and not strips and any(f.pol and f.text in ('buf[-1] == 26', 'buf and buf[-1] == 26') for f in flb.facts(cuts[0])),
            'every trailing 0x1A is removed: a memory image that ends in byte 26 is loaded short', ctx.where(bl))
+    # every operation the rest of the interpreter asks of `mode.memorymap` exists on every mapper a mode can carry (text and
+    # graphics families alike): the port and memory code does not know which one is current
+    called = {}
+    for fn in ctx.idx.functions('pcbasic/basic/'):
+        for c in own_nodes(fn):
+            if isinstance(c, ast.Call) and isinstance(c.func, ast.Attribute) and norm(c.func.value).endswith('.mode.memorymap'):
+                called.setdefault(c.func.attr, c)
+    FB2 = 'pcbasic/basic/display/framebuffer.py'
+    table = ctx.idx.class_table()
+    mappers = [c for (path, nm), c in sorted(table.items()) if path == FB2 and nm.endswith('MemoryMapper') and not nm.startswith('_')]
+    n_if = 0
+    for cls in mappers:
+        have = set()
+        for k in ctx.idx.mro(cls) if hasattr(ctx.idx, 'mro') else [cls]:
+            have |= set(class_methods(k)) if k is not None else set()
+        for meth, site in sorted(called.items()):
+            n_if += 1
+            rep.ob('access.mapper-interface-complete', '%s has %s()' % (cls.name, meth), meth in have,
+                   'called on mode.memorymap (%s) but missing from this mapper: AttributeError while that mode is current' % ctx.where(site), FB2)
+    rep.floor('access.mapper-interface-complete', n_if, 20, 'mapper class x operation pairs')
     # the part of a block that lies in video memory has a length >= 0 (the window ends; beyond it nothing is video memory):
     # reader and writer compute it the same way, clamped at 0
     lens = {}
@@ -208,6 +228,8 @@ def variants(ctx):
         return lambda tree: f(mu.find_def(tree, f_name))
 
     return [
+        mu.Variant('text-mapper-lacks-plane-registers', 'break', 'pcbasic/basic/display/framebuffer.py',
+                   lambda tree: _drop_method(tree, 'TextMemoryMapper', 'set_plane'), expect='access.mapper-interface-complete'),
         mu.Variant('cga-decoder-assumes-two-way-interleave', 'break', 'pcbasic/basic/display/framebuffer.py',
                    lambda tree: mu.replace_expr(mu.find_def(tree, 'CGAMemoryMapper._get_coords'), mu.text_is('self._interleave_times * row'), '2 * row'), expect='interleave.same-stride'),
         mu.Variant('bload-strips-every-trailing-marker', 'break', MA,
@@ -237,3 +259,14 @@ def variants(ctx):
                                                                          'display.pages[page].pixels[y + 1, x:x + pixarray.width] = pixarray')), expect='mapper.same-pixel-row'),
         Va('neutral', 'neutral', FB, in_fn('CGAMemoryMapper.get_memory', lambda fn: mu.rename_local(fn, 'pixarray', 'row'))),
     ]
+
+
+def _drop_method(tree, cls, meth):
+    for n in ast.walk(tree):
+        if isinstance(n, ast.ClassDef) and n.name == cls:
+            for st in list(n.body):
+                if isinstance(st, ast.FunctionDef) and st.name == meth:
+                    n.body.remove(st)
+                    return True
+    return False
+
